@@ -204,9 +204,11 @@ def _get_active_backend(
                 f"joblib backend instead of {backend.__class__.__name__} "
                 "as the latter does not provide shared memory semantics."
             )
-        # Force to n_jobs=1 by default
         thread_config = backend_config.copy()
-        thread_config["n_jobs"] = 1
+        if explicit_backend:
+            # The n_jobs of the context was set for the backend that is being
+            # replaced: force to n_jobs=1 by default.
+            thread_config["n_jobs"] = 1
         return sharedmem_backend, thread_config
 
     if force_processes:
